@@ -289,6 +289,12 @@ Proof.
       * apply okP_switch. apply okP_spawn.
         -- apply IHf. intros gs' ahs'. apply scoped_fin_okP. exact Hd.
         -- intros tid. apply okP_log. apply IHr.
+    + (* PAcqNew *)
+      apply (acq_new_code_okP F HF). apply okP_log. apply IHr.
+    + (* PAcqPoll *)
+      apply (acq_poll_code_okP F HF). intros res. apply okP_log. apply IHr.
+    + (* PAcqDrop *)
+      apply (acq_drop_code_okP F HF). apply okP_log. apply IHr.
 Qed.
 
 Theorem compile_okP : forall jt bodies, (panic_ok F \/ no_panic_op bodies) -> code_okP F (compile jt bodies).
